@@ -324,7 +324,7 @@ struct RunResult {
 fn miri_run(miri_seed: u64, rate: &str, scen_seed: u64) -> std::io::Result<RunResult> {
     let o = Command::new("cargo")
         .args(["+nightly", "miri", "run", "--offline", "-q", "--", "child", &scen_seed.to_string()])
-        .current_dir("/verif/c19/miri-sim")
+        .current_dir(format!("{}/c19/miri-sim", std::env::var("VERIF_ROOT").unwrap_or_else(|_| "/verif".to_string())))
         .env("MIRIFLAGS", format!("-Zmiri-seed={miri_seed} -Zmiri-preemption-rate={rate}"))
         .env("CARGO_NET_OFFLINE", "true")
         .env_remove("RUSTFLAGS")
